@@ -69,6 +69,27 @@ def run_equiv_(c):
         t2.load_state_dict(d.state_dict())
         if any(not torch.equal(t2.state_dict()[k], sd[k]) for k in sd):
             fail('state-dict-roundtrip', 'torch -> DP -> torch state_dict changed values')
+        # the same as a sub-module of a model (the usual place of a recurrent layer): keys, and checkpoints in both directions with strict loading
+        class Holder(nn.Module):
+            def __init__(s2, layer):
+                super().__init__()
+                s2.rnn = layer
+                s2.out = nn.Linear(2, 2)
+        tp, dp_ = make_pair(dict(c, seed=c['seed'] + 2))
+        if c.get('wide'):
+            tp.double()
+            dp_.double()
+        ht, hd = Holder(tp), Holder(dp_)
+        kt, kd = sorted(ht.state_dict().keys()), sorted(hd.state_dict().keys())
+        if kt != kd:
+            fail('state-dict-keys', 'as a sub-module: keys differ: torch-only %s, dp-only %s' % (sorted(set(kt) - set(kd))[:3], sorted(set(kd) - set(kt))[:3]))
+        for src, dst, nm in ((ht, hd, 'torch -> DP'), (hd, ht, 'DP -> torch')):
+            try:
+                dst.load_state_dict(src.state_dict())
+            except Exception as e:
+                fail('state-dict-roundtrip', 'as a sub-module, %s: load_state_dict raises %s' % (nm, str(e).replace('\n', ' ')[:160]))
+        if any(not torch.equal(v, hd.state_dict()[k]) for k, v in ht.state_dict().items() if k in hd.state_dict()):
+            fail('state-dict-roundtrip', 'as a sub-module: values differ after loading')
         g = torch.Generator().manual_seed(c['seed'] + 7)
         B, T = c['B'], c['T']
         lens = c['lens']
